@@ -141,8 +141,10 @@ impl SyncReadBuf {
                 let capacity = inner.buf_capacity();
                 let available_space = capacity - current_len;
 
-                // If target space is less than base capacity, grow the buffer.
-                let target_space = self.base_capacity;
+                // If target space is less than base capacity, grow the buffer. Always ask
+                // for at least one byte: reading into a full buffer returns 0, which would
+                // be mistaken for end-of-file below.
+                let target_space = self.base_capacity.max(1);
                 if available_space < target_space {
                     let new_capacity = current_len + target_space;
                     let _ = inner.reserve_exact(new_capacity - capacity);
